@@ -8,14 +8,17 @@ import sys
 name = sys.argv[1]
 rest = sys.argv[2:]
 out = []
+orig, cur = {}, {}
 for i in range(0, len(rest), 3):
     f, old, new = rest[i:i + 3]
     old = old.encode().decode("unicode_escape")
     new = new.encode().decode("unicode_escape")
-    src = open(os.path.join("/repo", f)).read()
-    if old not in src:
+    if f not in cur:
+        orig[f] = cur[f] = open(os.path.join("/repo", f)).read()
+    if old not in cur[f]:
         sys.exit(f"pattern not found in {f}: {old!r}")
-    dst = src.replace(old, new, 1)
-    out.extend(difflib.unified_diff(src.splitlines(True), dst.splitlines(True), "a/" + f, "b/" + f))
+    cur[f] = cur[f].replace(old, new, 1)      # several replacements in one file accumulate
+for f in orig:
+    out.extend(difflib.unified_diff(orig[f].splitlines(True), cur[f].splitlines(True), "a/" + f, "b/" + f))
 open(os.path.join("/verif/mutants", name + ".diff"), "w").write("".join(out))
 print("wrote", name)
